@@ -76,6 +76,7 @@ func NewClient(ch channel.Channel, opts *ClientOptions) *Client {
 func (c *Client) accept(ch receiver) error {
 	var in jmessages
 	bits, err := ch.Recv()
+	verifPoint("cli.accept.recv", c, err)
 	if err == nil {
 		err = in.parseJSON(bits)
 	}
@@ -93,6 +94,7 @@ func (c *Client) accept(ch receiver) error {
 	c.done.Add(1)
 	go func() {
 		defer c.done.Done()
+		verifPoint("cli.deliver.enter", c, nil)
 		c.mu.Lock()
 		defer c.mu.Unlock()
 		for _, rsp := range in {
@@ -124,6 +126,7 @@ func (c *Client) handleRequestLocked(msg *jmessage) {
 		go func() {
 			defer c.done.Done()
 			bits := c.scall(ctx, msg)
+			verifPoint("cli.cb.reply", c, nil)
 
 			c.mu.Lock()
 			defer c.mu.Unlock()
@@ -173,6 +176,7 @@ func (c *Client) req(ctx context.Context, method string, params any) (*jmessage,
 		return nil, err
 	}
 
+	verifPoint("cli.req.enter", c, nil)
 	c.mu.Lock()
 	defer c.mu.Unlock()
 	id := json.RawMessage(strconv.FormatInt(c.nextID, 10))
@@ -224,6 +228,7 @@ func (c *Client) send(ctx context.Context, reqs jmessages) ([]*Response, error) 
 		}
 	}
 
+	verifPoint("cli.send.enter", c, nil)
 	c.mu.Lock()
 	defer c.mu.Unlock()
 	if c.err != nil {
@@ -251,6 +256,7 @@ func (c *Client) send(ctx context.Context, reqs jmessages) ([]*Response, error) 
 func (c *Client) waitComplete(pctx context.Context, id string, p *Response) {
 	<-pctx.Done()
 	cleanup := func() {}
+	verifPoint("cli.wait.enter", c, id)
 	c.mu.Lock()
 	defer func() {
 		c.mu.Unlock()
@@ -280,6 +286,7 @@ func (c *Client) waitComplete(pctx context.Context, id string, p *Response) {
 	// If there is a cancellation hook, give it a chance to run.
 	if c.chook != nil {
 		cleanup = func() {
+			verifPoint("cli.oncancel.enter", c, id)
 			p.wait() // ensure the response has settled
 			c.log("Calling OnCancel for id %q", id)
 			c.chook(c, p)
@@ -378,10 +385,12 @@ func (c *Client) Notify(ctx context.Context, method string, params any) error {
 
 // Close shuts down the client, terminating any pending in-flight requests.
 func (c *Client) Close() error {
+	verifPoint("cli.close.enter", c, nil)
 	c.mu.Lock()
 	defer c.stopLocked(errClientStopped)()
 	c.mu.Unlock()
 	c.done.Wait()
+	verifPoint("cli.close.waited", c, nil)
 
 	// Don't remark on a closed channel or EOF as a noteworthy failure.
 	if isUninteresting(c.err) {
